@@ -1,5 +1,5 @@
 (* proofs for Model/Polar.v (C17, polar/cartesian round trip) *)
-From Coq Require Import Reals Lra.
+From Coq Require Import Reals Lra Psatz.
 From BF Require Import Model.Polar.
 Local Open Scope R_scope.
 
@@ -40,3 +40,11 @@ Proof.
   - apply (Rmult_eq_reg_r (norm2 c)); [congruence|exact Hn].
 Qed.
 
+
+(* make_polar_vectors (fullmatch.py) sorts by x so that every difference vector has x >= 0: its angle then has a
+   non-negative cosine, i.e. lies in [-pi/2, pi/2] modulo 2 pi *)
+Lemma nonneg_x_nonneg_cos_l y x a : is_arctan2 (y, x) a -> 0 < norm2 (y, x) -> 0 <= x -> 0 <= cos a.
+Proof.
+  intros [Hc _] Hn Hx. cbn [snd] in Hc. destruct (Rle_or_lt 0 (cos a)) as [H|H]; [exact H|].
+  exfalso. nra.
+Qed.
